@@ -358,7 +358,7 @@ func (c *EvalCtx) eval(x *Expr) (*Val, error) {
 		if b.S == sBytes {
 			bs = "(b_str " + b.T + ")"
 		}
-		return &Val{T: c.e.strCat(c.st, as, bs), S: sStr, Typ: types.Typ[types.String]}, nil
+		return &Val{T: c.catDistribute(as, bs), S: sStr, Typ: types.Typ[types.String]}, nil
 	}
 	return nil, fmt.Errorf("cannot evaluate %s", x)
 }
@@ -453,8 +453,8 @@ func (c *EvalCtx) ident(name string) (*Val, error) {
 	if v, ok := c.bound[name]; ok {
 		return v, nil
 	}
-	if c.hdr != nil && c.fr != nil {
-		// inside a loop clause the loop-carried variable shadows the parameter of the same name
+	if c.hdr != nil && c.fr != nil && !c.inOld {
+		// inside a loop clause the loop-carried variable shadows the parameter of the same name (old(x) is the parameter)
 		for _, in := range c.hdr.Instrs {
 			if phi, ok := in.(*ssa.Phi); ok && phi.Comment == name {
 				if v, ok := c.fr.env[phi]; ok {
@@ -1039,4 +1039,27 @@ func (c *EvalCtx) specCall(f *SpecFunc, args []*Val) (*Val, error) {
 		ts = append(ts, a.T)
 	}
 	return &Val{T: "(" + f.Name + " " + strings.Join(ts, " ") + ")", S: rs}, nil
+}
+
+// catDistribute concatenates two string terms, distributing over a top-level (ite c x y) operand so that the
+// result stays in the canonical right-nested form on each branch (no associativity reasoning is left to the solver).
+func (c *EvalCtx) catDistribute(a, b string) string {
+	if cd, x, y, ok := splitIte(b); ok {
+		return ite(cd, c.catDistribute(a, x), c.catDistribute(a, y))
+	}
+	if cd, x, y, ok := splitIte(a); ok {
+		return ite(cd, c.catDistribute(x, b), c.catDistribute(y, b))
+	}
+	return c.e.strCat(c.st, a, b)
+}
+
+func splitIte(t string) (string, string, string, bool) {
+	if !strings.HasPrefix(t, "(ite ") {
+		return "", "", "", false
+	}
+	parts := splitSexprs(t[5 : len(t)-1])
+	if len(parts) != 3 {
+		return "", "", "", false
+	}
+	return parts[0], parts[1], parts[2], true
 }
